@@ -90,6 +90,7 @@ class Engine(object):
         builtins_sym.register(s)
         s.st0 = None
         s.table_cache = {}
+        s.simp = False
         s.sample_every = 1
         s.maxsamples = 8
         s.validation = []        # (inputs, notes) pairs for native replays
@@ -136,6 +137,11 @@ class Engine(object):
             st.model = m
         return st.model
 
+    def S(s, x):
+        """simplify, except that in normalising mode big terms are left alone (z3.simplify rewrites the whole DAG)"""
+        if s.simp and not _small(x, 4): return x
+        return z3.simplify(x)
+
     def fresh(s, st, w, tag='u'):
         st.nfresh += 1
         return z3.BitVec('%s%d' % (tag, st.nfresh), w)
@@ -153,7 +159,10 @@ class Engine(object):
             st.decisions.append(d)
             side = bool(d & 1)
             if not d & 2:
-                st.pc.append(c if side else z3.Not(c))
+                me = c if side else z3.Not(c)
+                st.pc.append(me)
+                if st.model is not None and not z3.is_true(st.model.eval(me, model_completion=True)):
+                    st.model = None
             return side
         s._mark(st)
         m = s.model_of(st)
@@ -211,6 +220,8 @@ class Engine(object):
             st.decisions.append(d)
             v = d[1]
             st.pc.append(e == v)
+            if st.model is not None and not z3.is_true(st.model.eval(e == v, model_completion=True)):
+                st.model = None
             return v
         vals = []
         s._mark(st)
@@ -281,6 +292,11 @@ class Engine(object):
             if m is None: m = s.model_of(st)
         except (PathEnd, Inconclusive):
             m = None
+        if m is not None:
+            for x in st.pc:
+                if not z3.is_true(m.eval(x, model_completion=True)):
+                    s.inconclusive.append("engine self-check: counterexample model does not satisfy the path condition (%s: %s)" % (kind, msg))
+                    return
         site = s.where(st)
         s.violations.append({'kind': kind, 'msg': msg, 'site': site, 'inputs': s.input_values(st, m),
                              'params': s.params, 'decisions': len(st.decisions)})
@@ -358,7 +374,7 @@ class Engine(object):
                 s.ubnote(st, 'load of partially uninitialised %d-byte value' % n)
                 cells = [s.fresh(st, 8) if c is None else c for c in cells]
             parts = [s.byte_expr(c) for c in cells]
-            v = z3.simplify(z3.Concat(*reversed(parts))) if n > 1 else parts[0]
+            v = s.S(z3.Concat(*reversed(parts))) if n > 1 else parts[0]
             if z3.is_bv_value(v): v = v.as_long()
             if w != 8 * n:
                 v = v & mask(w) if v.__class__ is int else z3.Extract(w - 1, 0, v)
@@ -821,7 +837,48 @@ def _ptrarith(e, st, op, a, b, w):
             return a.p.off & b
     if op in ('and', 'or', 'xor') and a.__class__ is PInt and a.p.__class__ is Ptr and a.p.obj == 0:
         return _ptrarith(e, st, op, a.p.off, b, w)
-    raise Inconclusive("integer arithmetic %s on pointer values %r %r" % (op, a, b))
+    # e.g. the speculatively computed (NULL - p) of "c ? c - p : -1": the numeric value of an address is not
+    # modelled; the result is an indeterminate value (any use in a branch/address is reported as a UB note)
+    return Undef(w)
+
+
+def _acnorm(kind, mk, A, B):
+    """AC-normal form: flatten nested applications of the same operator and order operands by AST id, so that
+    two computations of the same sum/xor in different association/order build the identical (hash-consed) term"""
+    terms = []
+    todo = [B, A]
+    while todo:
+        x = todo.pop()
+        if z3.is_app_of(x, kind): todo.extend(x.children())
+        else: terms.append(x)
+    consts = [t for t in terms if z3.is_bv_value(t)]
+    if len(consts) > 1:
+        w = consts[0].size(); m = (1 << w) - 1
+        acc = consts[0].as_long()
+        for t in consts[1:]:
+            v = t.as_long()
+            acc = ((acc + v) & m) if kind == z3.Z3_OP_BADD else (acc ^ v) if kind == z3.Z3_OP_BXOR else (acc & v) if kind == z3.Z3_OP_BAND else (acc | v)
+        terms = [t for t in terms if not z3.is_bv_value(t)] + [z3.BitVecVal(acc, w)]
+    terms.sort(key=lambda t: t.get_id())
+    r = terms[0]
+    for t in terms[1:]:
+        r = mk(r, t)
+    return r
+
+
+def _small(x, d=5):
+    if d == 0: return x.num_args() == 0
+    for c in x.children():
+        if not _small(c, d - 1): return False
+    return True
+
+
+def _norm(e, r, kind=None, mk=None, A=None, B=None):
+    """result normalisation: plain mode = z3.simplify; normalising mode (e.simp) = simplify small terms only
+    (byte assembly -> Concat), AC-normal form for large ones (z3.simplify fragments big xor/concat terms bitwise)"""
+    if not e.simp: return z3.simplify(r)
+    if kind is not None: return _acnorm(kind, mk, A, B)
+    return r
 
 
 def h_add(e, st, fr, ins):
@@ -829,6 +886,8 @@ def h_add(e, st, fr, ins):
     if a.__class__ is int and b.__class__ is int:
         regs[ins[1]] = (a + b) & ((1 << ins[2]) - 1); return
     A, B = _binprep(e, st, a, b, ins[2], 'add')
+    if e.simp and A is not DONE and ins[2] != 1:
+        regs[ins[1]] = _acnorm(z3.Z3_OP_BADD, lambda x, y: x + y, A, B); return
     regs[ins[1]] = B if A is DONE else (z3.Xor(A, B) if ins[2] == 1 else A + B)
 
 
@@ -860,7 +919,7 @@ def h_and(e, st, fr, ins):
     if w == 1:
         regs[ins[1]] = B if A is True else A if B is True else False if (A is False or B is False) else z3.And(A, B)
         return
-    regs[ins[1]] = z3.simplify(A & B)
+    regs[ins[1]] = _norm(e, A & B, z3.Z3_OP_BAND, lambda x, y: x & y, A, B)
 
 
 def h_or(e, st, fr, ins):
@@ -873,7 +932,7 @@ def h_or(e, st, fr, ins):
     if w == 1:
         regs[ins[1]] = B if A is False else A if B is False else True if (A is True or B is True) else z3.Or(A, B)
         return
-    regs[ins[1]] = z3.simplify(A | B)
+    regs[ins[1]] = _norm(e, A | B, z3.Z3_OP_BOR, lambda x, y: x | y, A, B)
 
 
 def h_xor(e, st, fr, ins):
@@ -891,7 +950,7 @@ def h_xor(e, st, fr, ins):
         else: r = z3.Xor(A, B)
         regs[ins[1]] = (1 if r else 0) if r.__class__ is bool else r
         return
-    regs[ins[1]] = A ^ B
+    regs[ins[1]] = _acnorm(z3.Z3_OP_BXOR, lambda x, y: x ^ y, A, B) if e.simp else A ^ B
 
 
 def _shift(op):
@@ -909,7 +968,7 @@ def _shift(op):
         if op == 'shl': r = A << B
         elif op == 'lshr': r = z3.LShR(A, B)
         else: r = A >> B
-        regs[ins[1]] = z3.simplify(r)
+        regs[ins[1]] = _norm(e, r)
     return h
 
 
@@ -1069,8 +1128,8 @@ def h_trunc(e, st, fr, ins):
         else:
             raise Inconclusive("truncation of a pointer value")
     else:
-        r = z3.simplify(z3.Extract(tw - 1, 0, v))
-        if tw == 1: r = z3.simplify(r == 1)
+        r = e.S(z3.Extract(tw - 1, 0, v))
+        if tw == 1: r = e.S(r == 1)
         if z3.is_bv_value(r): r = r.as_long()
     fr.regs[ins[1]] = r
 
